@@ -29,6 +29,8 @@ struct Out
     }
 };
 static uint64_t n_eval, n_nt;
+// bit-for-bit equality of two reals (an x87 long double has 10 value bytes followed by padding)
+static bool same_bits(a_real a, a_real b) { return memcmp(&a, &b, sizeof(a_real) == 16 ? 10 : sizeof(a_real)) == 0; }
 static std::string dims(std::initializer_list<unsigned> d)
 {
     std::string s = "[";
@@ -53,6 +55,12 @@ static void product(int v, unsigned r, unsigned k, unsigned c, int content, unsi
     std::vector<a_real> X((size_t)xr * xc), Y((size_t)yr * yc), X0, Y0;
     for (unsigned i = 0; i < xr; ++i) { for (unsigned j = 0; j < xc; ++j) { X[(size_t)i * xc + j] = content == 0 ? xval(i, j) : (a_real)(i == ei && j == ej); } }
     for (unsigned i = 0; i < yr; ++i) { for (unsigned j = 0; j < yc; ++j) { Y[(size_t)i * yc + j] = content == 0 ? yval(i, j) : (a_real)(i == ek && j == el); } }
+#if A_SIZE_REAL + 0 == 16
+    // long double reals only: operands that need more than the 53 bits of a double (index code + 2^-50) against an all-ones operand; the
+    // products and sums are still exact in the 64-bit significand, so a detour through a narrower type anywhere changes the result
+    if (content == 2) { for (unsigned i = 0; i < xr; ++i) { for (unsigned j = 0; j < xc; ++j) { X[(size_t)i * xc + j] = xval(i, j) + (a_real)0x1p-50L; } } for (auto &y : Y) { y = 1; } }
+    if (content == 3) { for (unsigned i = 0; i < yr; ++i) { for (unsigned j = 0; j < yc; ++j) { Y[(size_t)i * yc + j] = yval(i, j) + (a_real)0x1p-50L; } } for (auto &x : X) { x = 1; } }
+#endif
     X0 = X;
     Y0 = Y;
     Out Z((size_t)r * c);
@@ -65,7 +73,7 @@ static void product(int v, unsigned r, unsigned k, unsigned c, int content, unsi
     }
     ++n_eval;
     n_nt += (r != c || k != r);
-    std::string in = "{\"fn\":\"" + std::string(MUL[v]) + "\",\"row\":" + std::to_string(r) + ",\"inner\":" + std::to_string(k) + ",\"col\":" + std::to_string(c) + ",\"content\":" + (content ? "\"unit-entries\"" : "\"index-coded\"") + "}";
+    std::string in = "{\"fn\":\"" + std::string(MUL[v]) + "\",\"row\":" + std::to_string(r) + ",\"inner\":" + std::to_string(k) + ",\"col\":" + std::to_string(c) + ",\"content\":" + (content == 1 ? "\"unit-entries\"" : content == 0 ? "\"index-coded\"" : "\"beyond-double-precision\"") + "}";
     std::string cls = (r == c && c == k) ? "square" : (k == 1 ? "inner1" : "rectangular");
     if (!Z.guards_ok()) { R.viol(std::string(MUL[v]) + "|" + cls + "|overrun", std::string("a_real_") + MUL[v] + " wrote outside the " + std::to_string(r) + "x" + std::to_string(c) + " result array", in); return; }
     if (X != X0 || Y != Y0) { R.viol(std::string(MUL[v]) + "|" + cls + "|input-modified", std::string("a_real_") + MUL[v] + " modified an input operand", in); return; }
@@ -73,16 +81,16 @@ static void product(int v, unsigned r, unsigned k, unsigned c, int content, unsi
     {
         for (unsigned j = 0; j < c; ++j)
         {
-            long long want = 0;
+            long double want = 0; // exact: small integers (plus, in the long double build, one low-order bit per entry)
             for (unsigned t = 0; t < k; ++t)
             {
-                long long a = (long long)((v == 1 || v == 3) ? X[(size_t)t * xc + i] : X[(size_t)i * xc + t]);
-                long long b = (long long)((v == 2 || v == 3) ? Y[(size_t)j * yc + t] : Y[(size_t)t * yc + j]);
+                long double a = (long double)((v == 1 || v == 3) ? X[(size_t)t * xc + i] : X[(size_t)i * xc + t]);
+                long double b = (long double)((v == 2 || v == 3) ? Y[(size_t)j * yc + t] : Y[(size_t)t * yc + j]);
                 want += a * b;
             }
             if (Z.p()[(size_t)i * c + j] != (a_real)want)
             {
-                R.viol(std::string(MUL[v]) + "|" + cls + "|value", std::string("a_real_") + MUL[v] + ": entry (" + std::to_string(i) + "," + std::to_string(j) + ") of the " + std::to_string(r) + "x" + std::to_string(c) + " product (inner " + std::to_string(k) + ") is " + std::to_string((double)Z.p()[(size_t)i * c + j]) + ", the definition gives " + std::to_string(want), in);
+                R.viol(std::string(MUL[v]) + "|" + cls + "|value", std::string("a_real_") + MUL[v] + ": entry (" + std::to_string(i) + "," + std::to_string(j) + ") of the " + std::to_string(r) + "x" + std::to_string(c) + " product (inner " + std::to_string(k) + ") is " + std::to_string((double)Z.p()[(size_t)i * c + j]) + ", the definition gives " + std::to_string((double)want) + (content >= 2 ? " (they differ below double precision)" : ""), in);
                 return;
             }
         }
@@ -102,13 +110,15 @@ static void structure(unsigned m, unsigned n, int pattern = 0)
         ++n_eval;
         n_nt += m != n;
         if (!O.guards_ok()) { R.viol(std::string(fn) + "|" + sh + "|overrun", std::string("a_real_") + fn + " wrote outside its " + std::to_string(rows) + "x" + std::to_string(cols) + " result", in); return; }
-        if (memcmp(A.data(), A0.data(), sizeof(a_real) * A.size()) != 0) { R.viol(std::string(fn) + "|" + sh + "|input-modified", std::string("a_real_") + fn + " modified its input", in); return; }
+        bool input_same = true;
+        for (size_t q = 0; q < A.size(); ++q) { if (!same_bits(A[q], A0[q])) { input_same = false; } }
+        if (!input_same) { R.viol(std::string(fn) + "|" + sh + "|input-modified", std::string("a_real_") + fn + " modified its input", in); return; }
         for (unsigned i = 0; i < rows; ++i)
         {
             for (unsigned j = 0; j < cols; ++j)
             {
                 a_real wv = (a_real)want(i, j), gv = O.p()[(size_t)i * cols + j];
-                if (memcmp(&gv, &wv, sizeof gv) != 0)
+                if (!same_bits(gv, wv))
                 {
                     R.viol(std::string(fn) + "|" + sh + "|pattern", std::string("a_real_") + fn + " on a " + std::to_string(m) + "x" + std::to_string(n) + " shape: entry (" + std::to_string(i) + "," + std::to_string(j) + ") is " + std::to_string((double)gv) + (std::signbit((double)gv) ? " (sign bit set)" : "") + ", specified " + std::to_string(want(i, j)) + (std::signbit(want(i, j)) ? " (sign bit set)" : ""), in);
                     return;
@@ -158,6 +168,10 @@ int main(int argc, char **argv)
                     for (int v = 0; v < 4; ++v)
                     {
                         product(v, r, k, c, 0, 0, 0, 0, 0);
+#if A_SIZE_REAL + 0 == 16
+                        product(v, r, k, c, 2, 0, 0, 0, 0);
+                        product(v, r, k, c, 3, 0, 0, 0, 0);
+#endif
                         if (r <= 3 && k <= 3 && c <= 3)
                         {
                             // all single-entry operands: with bilinearity this pins every coefficient of the product
